@@ -43,10 +43,13 @@ Section TcpProofs.
     | _ => False
     end.
 
+  (* no I/O ever hit a closed endpoint, and the relay has armed no read deadline on either endpoint *)
+  Definition quiet (sh : tsh) : Prop := sh_io_after_close sh = 0 /\ sh_dl_a sh = false /\ sh_dl_b sh = false.
+
   Definition Inv (s : st tsh (nat * tpc)) : Prop :=
     exists p0 p1 pm, snd s = [(0%nat, p0); (1%nat, p1); (2%nat, pm)] /\
       dinv sA cB p0 (sh_d0 (fst s)) /\ dinv sB cA p1 (sh_d1 (fst s)) /\
-      sh_wg (fst s) = nz p0 + nz p1 /\ sh_io_after_close (fst s) = 0 /\ minv pm (fst s).
+      sh_wg (fst s) = nz p0 + nz p1 /\ quiet (fst s) /\ minv pm (fst s).
 
   Lemma loop_iter_inv data cfg total D :
     dinv data cfg (PLoop total) D ->
@@ -80,19 +83,19 @@ Section TcpProofs.
   (* one step of the copier of direction d keeps its own invariant and touches nothing else —
      in particular its half-close never closes anything, whatever wraps the destination *)
   Lemma copier_step_inv (d : nat) data cfg pc sh :
-    sh_closed_a sh = false -> sh_closed_b sh = false ->
+    sh_closed_a sh = false -> sh_closed_b sh = false -> sh_dl_a sh = false -> sh_dl_b sh = false ->
     dinv data cfg pc (if (d =? 0)%nat then sh_d0 sh else sh_d1 sh) ->
     exists pc' D', copier_step CopyBuf false d pc sh =
                      (pc', set_d d sh D' (sh_wg sh - (nz pc - nz pc')) 0) /\ dinv data cfg pc' D' /\ nz pc' <= nz pc.
   Proof.
-    intros Hca Hcb Hd. unfold copier_step. rewrite Hca, Hcb.
+    intros Hca Hcb Hda Hdb Hd. unfold copier_step. rewrite Hca, Hcb, Hda, Hdb.
     replace (if (d =? 0)%nat then false else false) with false by (destruct (d =? 0)%nat; reflexivity).
     destruct pc as [total| | | | | | |]; try (exfalso; exact (proj2 Hd)).
     - destruct (loop_iter_inv data cfg total _ Hd) as (pc' & D' & Hl & Hd' & Hnz). rewrite Hl.
       exists pc', D'. split; [|split; [exact Hd'|cbn [nz]; lia]]. cbn [nz]. rewrite Hnz. f_equal. f_equal. lia.
     - destruct Hd as ((Hwl & Hcfg) & Ho & (Hcw & Hcwf) & Hb).
       set (D := if (d =? 0)%nat then sh_d0 sh else sh_d1 sh) in *.
-      unfold half_close_step.
+      unfold half_close_step, half_close_only.
       assert (Hwg : sh_wg sh - (nz PHalf - nz PWg) = sh_wg sh) by (cbn [nz]; lia).
       pose proof (dispatch_never_closes (d_cfg D)) as Hnc.
       destruct (close_write_dispatch (d_cfg D)) eqn:E; [| | |congruence]; rewrite Hcfg in E.
@@ -127,7 +130,7 @@ Section TcpProofs.
 
   Lemma Inv_intro sh p0 p1 pm :
     dinv sA cB p0 (sh_d0 sh) -> dinv sB cA p1 (sh_d1 sh) -> sh_wg sh = nz p0 + nz p1 ->
-    sh_io_after_close sh = 0 -> minv pm sh -> Inv (sh, [(0%nat, p0); (1%nat, p1); (2%nat, pm)]).
+    quiet sh -> minv pm sh -> Inv (sh, [(0%nat, p0); (1%nat, p1); (2%nat, pm)]).
   Proof.
     intros Ha Hb Hc Hd He. exists p0, p1, pm. cbn [fst snd]. split; [reflexivity|].
     repeat (split; [assumption|]). assumption.
@@ -160,7 +163,7 @@ Section TcpProofs.
         cbn [copier_step upd_nth]. apply Inv_intro; assumption.
       + destruct (minv_not_wait_done pm sh p0 p1 Hm Hwg (or_intror (or_introl Hcb))) as [-> ->].
         cbn [copier_step upd_nth]. apply Inv_intro; assumption.
-      + destruct (copier_step_inv 0 sA cB p0 sh Hca Hcb H0) as (pc' & D' & Hs & Hd' & Hle). rewrite Hs.
+      + destruct (copier_step_inv 0 sA cB p0 sh Hca Hcb (proj1 (proj2 Hio)) (proj2 (proj2 Hio)) H0) as (pc' & D' & Hs & Hd' & Hle). rewrite Hs.
         cbn [upd_nth].
         assert (Hnz : nz p0 - nz pc' <= nz p0 /\ nz p0 - (nz p0 - nz pc') = nz pc').
         { lia. }
@@ -168,7 +171,8 @@ Section TcpProofs.
         * unfold set_d. cbn [Nat.eqb sh_d0]. exact Hd'.
         * unfold set_d. cbn [Nat.eqb sh_d1]. exact H1.
         * unfold set_d. cbn [sh_wg]. lia.
-        * unfold set_d. cbn [sh_io_after_close]. lia.
+        * destruct Hio as (Hi & Hqa & Hqb). unfold quiet, set_d. cbn [sh_io_after_close sh_dl_a sh_dl_b].
+          split; [lia|split; [exact Hqa|exact Hqb]].
         * apply (minv_set_d 0 sh D' _ pm p0 p1 pc' p1 Hm Hwg); lia.
     - (* B->A copier *)
       unfold tstep. cbn [fst snd].
@@ -177,7 +181,7 @@ Section TcpProofs.
         cbn [copier_step upd_nth]. apply Inv_intro; assumption.
       + destruct (minv_not_wait_done pm sh p0 p1 Hm Hwg (or_intror (or_introl Hcb))) as [-> ->].
         cbn [copier_step upd_nth]. apply Inv_intro; assumption.
-      + destruct (copier_step_inv 1 sB cA p1 sh Hca Hcb H1) as (pc' & D' & Hs & Hd' & Hle). rewrite Hs.
+      + destruct (copier_step_inv 1 sB cA p1 sh Hca Hcb (proj1 (proj2 Hio)) (proj2 (proj2 Hio)) H1) as (pc' & D' & Hs & Hd' & Hle). rewrite Hs.
         cbn [upd_nth].
         assert (Hnz : nz p1 - nz pc' <= nz p1 /\ nz p1 - (nz p1 - nz pc') = nz pc').
         { lia. }
@@ -185,7 +189,8 @@ Section TcpProofs.
         * unfold set_d. cbn [Nat.eqb sh_d0]. exact H0.
         * unfold set_d. cbn [Nat.eqb sh_d1]. exact Hd'.
         * unfold set_d. cbn [sh_wg]. lia.
-        * unfold set_d. cbn [sh_io_after_close]. lia.
+        * destruct Hio as (Hi & Hqa & Hqb). unfold quiet, set_d. cbn [sh_io_after_close sh_dl_a sh_dl_b].
+          split; [lia|split; [exact Hqa|exact Hqb]].
         * apply (minv_set_d 1 sh D' _ pm p0 p1 p0 pc' Hm Hwg); lia.
     - (* main *)
       unfold tstep. cbn [fst snd]. unfold main_step.
@@ -223,7 +228,7 @@ Section TcpProofs.
     - split; [auto|]. rewrite Ho0, HA. cbn [app]. repeat split; auto.
     - split; [auto|]. rewrite Ho1, HB. cbn [app]. repeat split; auto.
     - reflexivity.
-    - reflexivity.
+    - unfold quiet. cbn [sh_io_after_close sh_dl_a sh_dl_b]. auto.
     - repeat split; auto. intros Hx; discriminate Hx.
   Qed.
 
@@ -241,7 +246,7 @@ Section TcpProofs.
     (exists x, sA = d_out (sh_d0 (fst s)) ++ x) /\ (exists y, sB = d_out (sh_d1 (fst s)) ++ y) /\
     sh_io_after_close (fst s) = 0.
   Proof.
-    intros (p0 & p1 & pm & _ & (_ & H0) & (_ & H1) & _ & Hio & _). repeat split; [| |exact Hio].
+    intros (p0 & p1 & pm & _ & (_ & H0) & (_ & H1) & _ & (Hio & _) & _). repeat split; [| |exact Hio].
     - destruct p0; try tauto; [destruct H0 as (H0 & _); eexists; exact H0| | |];
         destruct H0 as (H0 & _); exists []; now rewrite app_nil_r.
     - destruct p1; try tauto; [destruct H1 as (H1 & _); eexists; exact H1| | |];
@@ -255,7 +260,7 @@ Section TcpProofs.
     (d_cw (sh_d1 (fst s)) = ncw cA /\ d_cwf (sh_d1 (fst s)) = ncwf cA) /\
     sh_ncl_a (fst s) = ncl cA /\ sh_ncl_b (fst s) = ncl cB /\ sh_io_after_close (fst s) = 0.
   Proof.
-    intros (p0 & p1 & pm & _ & H0 & H1 & Hwg & Hio & Hm) Hret.
+    intros (p0 & p1 & pm & _ & H0 & H1 & Hwg & (Hio & _) & Hm) Hret.
     assert (Hpm : pm = PDone).
     { destruct pm; cbn [minv] in Hm; try tauto; try (destruct Hm as (? & ? & ? & ? & ? & ?); congruence);
         destruct Hm as (? & ? & ? & ?); congruence. }
@@ -263,6 +268,9 @@ Section TcpProofs.
     assert (p0 = PDone /\ p1 = PDone) as [-> ->] by (destruct p0, p1; cbn [nz] in Hwg; try lia; auto).
     destruct H0 as (_ & ? & ? & ?). destruct H1 as (_ & ? & ? & ?). repeat split; tauto.
   Qed.
+
+  Lemma Inv_no_deadline s : Inv s -> sh_dl_a (fst s) = false /\ sh_dl_b (fst s) = false.
+  Proof. intros (p0 & p1 & pm & _ & _ & _ & _ & (_ & Ha & Hb) & _). split; assumption. Qed.
 
   (* while at least one direction is still running: NEITHER endpoint is closed and no Close has reached either
      endpoint — in particular the half-close performed by a finished direction closed nothing, for every
